@@ -56,6 +56,7 @@ var SessionIDs = map[string]string{
 	"s2": "22222222-2222-2222-2222-222222222222",
 	"s3": "33333333-3333-3333-3333-333333333333",
 	"s4": "44444444-4444-4444-4444-444444444444",
+	"s9": "99999999-9999-9999-9999-999999999999", // never created by any alphabet
 }
 
 func kvCur(w *world.World, key string) uint64 {
@@ -68,12 +69,12 @@ func kvCur(w *world.World, key string) uint64 {
 
 // KVReq builds the KVSRequest for a verb; used both directly and by the txn wrapper.
 type KVSpec struct {
-	Verb  api.KVOp
-	Key   string
-	Val   string
-	Flags uint64
-	Sess  string // logical session name (s1/s2) or ""
-	Idx   IdxClass
+	Verb   api.KVOp
+	Key    string
+	Val    string
+	Flags  uint64
+	Sess   string // logical session name (s1/s2) or ""
+	Idx    IdxClass
 	UseIdx bool
 }
 
@@ -197,13 +198,13 @@ func KVSpecs(keys []string, prefixes []string, sessions []string, vals []string,
 // ---- sessions --------------------------------------------------------------------------------
 
 type SessionSpec struct {
-	Name     string // logical name s1/s2
-	Node     string
-	Behavior structs.SessionBehavior
+	Name       string // logical name s1/s2
+	Node       string
+	Behavior   structs.SessionBehavior
 	NodeChecks []string
-	SessName string // Session.Name (binds session-type checks)
-	TTL      string
-	LockDelay int64
+	SessName   string // Session.Name (binds session-type checks)
+	TTL        string
+	LockDelay  int64
 }
 
 func (s SessionSpec) Create() world.Op {
